@@ -45,12 +45,15 @@ THEOREMS = [
     "C05.nesting", "C05.nesting_every_derivation", "C05.end_to_end_json_partial",
     "C05.lines_cut_at_newline_only", "C05.seq_items_executed", "C05.constructor_is_ll_constructor",
     "C05.choice_elements_squashed", "C05.squash_around_items", "C05.no_exceptions", "C05.any_token_except",
-    "C05.squash_data",
+    "C05.squash_data", "C05.one_entry_per_item", "C05.any_length", "C05.absent_container_first",
+    "C05.written_production_first",
 ]
 
-RULE = ("one case = one grammar (real LLParser rebuilt from a JSON spec) + 8-14 rendered values, or 20 template "
+RULE = ("one case = one grammar (real LLParser rebuilt from a JSON spec) + 8-14 rendered values (2-6 for the long / deep "
+        "family: containers of 990-1100 or 5000 entries, nesting 20-60 levels), or 20 template "
         "constructor calls, or one un-flattened sequence; distinct by protocol text; non-trivial = at least one text whose "
-        "value holds a container with >= 2 entries or nesting depth >= 2 (template / sequence cases always)")
+        "value holds a container with >= 2 entries or nesting depth >= 2 (template / sequence cases always; a statement of the "
+        "statement-language family counts as a node with >= 2 entries)")
 TRUSTED = ["constructT (C05) and LL.constructG (C01-C03) are linked by C05.constructor_is_ll_constructor (success of constructT "
            "implies the same parser from constructG on the expanded productions); error outcomes of the two constructors are "
            "tied to the code separately, each by its own correspondence",
@@ -65,7 +68,15 @@ ASSUMPTIONS = ["item symbol differs from the bracket and delimiter symbols of it
                "evaluated by the compiled model on every generated tree: `cf` lines)",
                "keep_symbols is not a template option: with the item symbol kept and the item nullable only through an "
                "optional list used as its own item, the 'absent list' read after a final delimiter is a kept element, not "
-               "None, and stays in the list (observed, not generated); a kept key symbol makes keys TElements (identity)"]
+               "None, and stays in the list (observed, not generated); a kept key symbol makes keys TElements (identity)",
+               "nesting depth: the real clean-up (StdCleanuper._cleanup -> transform_t_elem -> _cleanup ...) and the reference "
+               "reader of the oracle recurse once per nesting level, CPython's recursion limit (1000 frames) ends both near "
+               "200 levels (RecursionError); texts nested up to 61 levels are generated, 'any depth' of the property is tied "
+               "to the real code up to that bound only (the theorems hold for every depth). Length is not bounded that way "
+               "since 2cdb1cb (tail chains are walked in a loop); containers of up to 5000 entries are generated",
+               "very long containers holding many non-empty containers make the real parse loop copy its stack at every "
+               "roll-back (`longest_stack`, quadratic time, not a wrong result): the long containers generated hold about "
+               "twenty nested containers each"]
 
 
 # ------------------------------------------------------------------ translator
@@ -197,6 +208,9 @@ def _err(e):
     return "err " + type(e).__name__
 
 
+_enc = functools.lru_cache(maxsize=8192)(enc_str)        # symbol names and short words repeat: long trees are mostly these
+
+
 # ------------------------------------------------------------------ protocol text (must equal Drv/C05.lean)
 def _optname(s):
     return "~" if s is None else enc_str(s)
@@ -224,29 +238,29 @@ def show_sigs(d):
 
 
 def show_val(x):
+    """prefix form of a (raw or cleaned) tree; iterative: the raw tree of a list is as deep as the list is long"""
     ll = _ll()
     out = []
-
-    def go(x):
+    stack = [x]
+    while stack:
+        x = stack.pop()
         if x is None:
             out.append("N")
         elif isinstance(x, str):
-            out.append("S " + enc_str(x))
+            out.append("S " + (_enc(x) if len(x) < 24 else enc_str(x)))
         elif isinstance(x, ll.TElement):
-            out.append("E " + enc_str(x.name) + (" 1" if x._is_leaf else " 0"))
-            go(x.value)
+            out.append("E " + _enc(x.name) + (" 1" if x._is_leaf else " 0"))
+            stack.append(x.value)
         elif isinstance(x, list):
             out.append("L %d" % len(x))
-            for y in x:
-                go(y)
+            stack.extend(reversed(x))
         elif isinstance(x, dict):
             out.append("D %d" % len(x))
-            for k, v in x.items():
-                go(k)
-                go(v)
+            for k, v in reversed(list(x.items())):
+                stack.append(v)
+                stack.append(k)
         else:
             raise TypeError("value of unexpected type %s" % type(x).__name__)
-    go(x)
     return " ".join(out)
 
 
@@ -555,25 +569,26 @@ def oracle(case, replies):
         return "grammar: the grammar of the case is rejected (%s)" % type(e).__name__
     for it in case["items"]:
         exp = it["exp"]
+        shown = it["text"] if len(it["text"]) < 400 else it["text"][:200] + "<... %d characters ...>" % (len(it["text"]) - 300) + it["text"][-100:]
         try:
             root = parser.parse(parse_input(it))
         except ll.LexicalError:
             if exp[0] in ("lexerr", "any"):
                 continue
-            return "exception: %r raises LexicalError" % (it["text"],)
+            return "exception: %r raises LexicalError" % (shown,)
         except ll.ParsingError:
             if exp[0] in ("err", "any"):
                 continue
-            return "rejected: %r is not parsed although it denotes %s" % (it["text"], _short(exp[1]))
+            return "rejected: %r is not parsed although it denotes %s" % (shown, _short(exp[1]))
         except Exception as e:
-            return "exception: %r raises %s" % (it["text"], type(e).__name__)
+            return "exception: %r raises %s" % (shown, type(e).__name__)
         if exp[0] == "any":
             continue
         if exp[0] in ("err", "lexerr"):
-            return "accepted: %r is parsed (%s) although the grammar cannot denote it" % (it["text"], _short(root.value))
+            return "accepted: %r is parsed (%s) although the grammar cannot denote it" % (shown, _short(root.value))
         m = match(exp[1], root, parser)
         if m:
-            return "items: %r -> %s" % (it["text"], m)
+            return "items: %r -> %s" % (shown, m)
     return None
 
 
@@ -1916,16 +1931,464 @@ def f9_cases(rng, tier):
             yield c
 
 
+# ---- family 10: grammars AROUND the containers -- statement languages
+#   * a production that STARTS with one or two nullable containers (optional list / map, bracket-less list / map, sequence),
+#     absent or present in the text, followed by a non-terminal whose first tokens come through a chain of further
+#     non-terminals (defined anywhere in the dict: `reorder`), the production being itself the first symbol of other productions
+#     (directly or through one-symbol wrappers);
+#   * two or three alternatives that all begin with the SAME container symbol (VALUE / LIST / MAP / optional list / optional
+#     map) and differ only in what follows it; wrapped alternatives (`STMT -> ASSIGN`, `ASSIGN -> HEAD '=' VALUE ';'`) cannot be
+#     merged by factorisation, so the container is read, the alternative fails after it, and the next alternative reads the
+#     same container again at the same position; inline alternatives are merged (both kinds mixed, every order);
+#   * statements in a sequence, in a bracket-less list, alone, and nested in blocks inside container items.
+# Every statement kind has its own token right after the shared head, containers are balanced, so the text has one reading
+# whatever the order of the alternatives.
+F10_PRES = [["opt-list"], ["opt-map"], ["opt-list", "opt-map"], ["opt-map", "opt-list"], ["nobr-list"], ["nobr-list-nodelim"],
+            ["nobr-map"], ["seq"]]
+F10_VKINDS = {"assign": ("ASSIGN", "="), "expr": ("EXPR", None), "tagged": ("TAGGED", ":")}
+
+
+def f10_grammar(rng):
+    head = rng.choice(["VALUE", "VALUE", "LIST", "MAP", "OLIST", "OMAP"])
+    vkinds = rng.sample(sorted(F10_VKINDS), rng.choice([1, 2, 2, 3, 3]))
+    g = {"head": head, "vkinds": vkinds, "wrapped": {k: rng.random() < 0.6 for k in vkinds},
+         "decl": rng.random() < 0.75, "block": rng.random() < 0.3,
+         "emode": rng.choice(["single", "seq-start", "seq", "nobr-list"])}
+    alts = []
+    prods = []
+    for k in vkinds:
+        sym, tok = F10_VKINDS[k]
+        body = [head] + ({"assign": ["=", "VALUE", ";"], "expr": [";"], "tagged": [":", "WORD", ";"]}[k])
+        if g["wrapped"][k]:
+            alts.append((k, [sym]))
+            prods.append([sym, "plain", [body]])
+        else:
+            alts.append((k, body))
+    if g["decl"]:
+        g["pre"] = rng.choice(F10_PRES)
+        g["chain"] = rng.choice([0, 1, 1, 2, 3])
+        g["leaf"] = rng.choice([["@", "WORD"], ["#", "WORD"], ["@"]])
+        g["body"] = rng.choice(["body", "body", "name"])
+        g["wrap"] = rng.choice([0, 0, 1, 2])
+        names = ["DW%d" % i for i in range(1, g["wrap"] + 1)] + ["DECL"]          # DW1 -> DW2 -> DECL
+        wr = [[a, "plain", [[b]]] for a, b in zip(names, names[1:])]
+        alts.append(("decl", [names[0]]))
+        pres = ["PRE%d" % (i + 1) for i in range(len(g["pre"]))]
+        prods += wr
+        prods.append(["DECL", "plain", [pres + (["BODY"] if g["body"] == "body" else ["NAME"]) + [";"]]])
+        for sym, kind in zip(pres, g["pre"]):
+            prods.append([sym] + list(F7_KINDS[kind][1:]))
+        if "seq" in g["pre"]:
+            prods.append(["LST", "list", ["[", "WORD", ",", "]", None, None]])
+        if g["body"] == "body":
+            prods.append(["BODY", "plain", [["NAME", "ARGS"]]])
+            prods.append(["ARGS", "list", ["<", "WORD", ",", ">", None, True]])
+        chain = ["NAME"] + ["NM%d" % i for i in range(1, g["chain"] + 1)]
+        for a, b in zip(chain, chain[1:]):
+            prods.append([a, "plain", [[b]]])
+        prods.append([chain[-1], "plain", [list(g["leaf"])]])
+    rng.shuffle(alts)
+    g["alts"] = alts
+    value_alts = [["WORD"], ["LIST"], ["MAP"]] + ([["BLOCK"]] if g["block"] else [])
+    top = {"single": [["E", "plain", [["STMT"]]]],
+           "seq-start": [["E", "seq", ["STMT"]]],
+           "seq": [["E", "plain", [["SEQ"]]], ["SEQ", "seq", ["STMT"]]],
+           "nobr-list": [["E", "plain", [["SL"]]], ["SL", "list", [None, "STMT", None, None, None, None]]]}[g["emode"]]
+    prods = top + [["STMT", "plain", [a for _, a in alts]]] + prods + [
+        ["VALUE", "plain", value_alts],
+        ["LIST", "list", ["[", "VALUE", ",", "]", None, None]],
+        ["MAP", "map", ["{", "WORD", ":", "VALUE", ",", "}", None, None]]]
+    if head == "OLIST":
+        prods.append(["OLIST", "list", ["[", "VALUE", ",", "]", None, True]])
+    if head == "OMAP":
+        prods.append(["OMAP", "map", ["{", "WORD", ":", "VALUE", ",", "}", True, None]])
+    if g["block"]:
+        prods += [["BLOCK", "plain", [["(", "BSEQ", ")"]]], ["BSEQ", "seq", ["STMT"]]]
+    g["spec"] = {"prods": prods, "keep": None, "smart": rng.random() < 0.6, "start": "E"}
+    return g
+
+
+def f10_elem_name(g, kind):
+    """name of a statement as an element of a sequence: STMT vanishes iff it is a choice symbol (>= 2 alternatives, one symbol
+    each)"""
+    if len(g["alts"]) == 1 or any(len(a) != 1 for _, a in g["alts"]):
+        return "STMT"                  # not a choice symbol (a single one-symbol alternative makes it a wrapper)
+    # a one-symbol wrapper takes over the content of its child and keeps its own name: DW1[DW2[DECL[..]]] is DW1[..]
+    return ("DW1" if g["wrap"] else "DECL") if kind == "decl" else F10_VKINDS[kind][0]
+
+
+def _f10_dict(pairs):
+    out = []
+    for k, e in pairs:
+        for ent in out:
+            if ent[0] == k:
+                ent[1] = e
+                break
+        else:
+            out.append([k, e])
+    return {"map": out}
+
+
+def f10_gen_value(rng, g, d, kind=None):
+    """generator data: ["W", w] | ["L", items, fin] | ["M", pairs, fin] | ["B", stmts]"""
+    r = rng.random()
+    if kind is None:
+        if d > 3 or r < 0.3:
+            kind = "W"
+        elif r < 0.62:
+            kind = "L"
+        elif r < 0.9 or not g["block"] or d > 2:
+            kind = "M"
+        else:
+            kind = "B"
+    if kind == "W":
+        return ["W", rng.choice(WORDS)]
+    if kind == "L":
+        n = rng.choice([0, 1, 1, 2, 3])
+        return ["L", [f10_gen_value(rng, g, d + 1) for _ in range(n)], n > 0 and rng.random() < 0.25]
+    if kind == "M":
+        n = rng.choice([0, 1, 1, 2, 3])
+        return ["M", [[rng.choice(["k", "kk", "z"]), f10_gen_value(rng, g, d + 1)] for _ in range(n)],
+                n > 0 and rng.random() < 0.25]
+    return ["B", [f10_gen_stmt(rng, g, d + 1) for _ in range(rng.choice([0, 1, 2]))]]
+
+
+def f10_gen_stmt(rng, g, d):
+    kind = rng.choice([k for k, _ in g["alts"]])
+    if kind == "decl":
+        pres = []
+        for pk in g["pre"]:
+            pres.append(f7_container(rng, pk, rng.random() < 0.5))
+        w = rng.choice(WORDS)
+        args = None
+        if g["body"] == "body" and rng.random() < 0.6:
+            args = [rng.choice(WORDS) for _ in range(rng.choice([0, 1, 2]))]
+        return ["decl", pres, w, args]
+    head = g["head"]
+    if head in ("OLIST", "OMAP") and rng.random() < 0.3:
+        hv = None
+    else:
+        hv = f10_gen_value(rng, g, d, {"VALUE": None if rng.random() < 0.3 else rng.choice(["L", "M"]),
+                                        "LIST": "L", "OLIST": "L", "MAP": "M", "OMAP": "M"}[head])
+    if kind == "assign":
+        return ["assign", hv, f10_gen_value(rng, g, d)]
+    if kind == "tagged":
+        return ["tagged", hv, rng.choice(WORDS)]
+    return ["expr", hv]
+
+
+def f10_render_value(rng, g, v):
+    if v[0] == "W":
+        return v[1]
+    if v[0] == "L":
+        s = "[" + ws(rng) + ("," + ws(rng)).join(f10_render_value(rng, g, x) + ws(rng) for x in v[1])
+        return s + ("," + ws(rng) if v[2] else "") + "]"
+    if v[0] == "M":
+        s = "{" + ws(rng) + ("," + ws(rng)).join(k + ws(rng) + ":" + ws(rng) + f10_render_value(rng, g, x) + ws(rng)
+                                                 for k, x in v[1])
+        return s + ("," + ws(rng) if v[2] else "") + "}"
+    return "(" + ws(rng) + "".join(f10_render_stmt(rng, g, x) + ws(rng) for x in v[1]) + ")"
+
+
+def f10_render_stmt(rng, g, st):
+    if st[0] == "decl":
+        s = ""
+        for text, _ in st[1]:
+            s += text + ws(rng)
+        s += g["leaf"][0] + ws(rng) + (st[2] + ws(rng) if len(g["leaf"]) == 2 else "")
+        if st[3] is not None:
+            s += "<" + ws(rng) + ("," + ws(rng)).join(st[3]) + ws(rng) + ">" + ws(rng)
+        return s + ";"
+    s = ("" if st[1] is None else f10_render_value(rng, g, st[1])) + ws(rng)
+    if st[0] == "assign":
+        s += "=" + ws(rng) + f10_render_value(rng, g, st[2]) + ws(rng)
+    elif st[0] == "tagged":
+        s += ":" + ws(rng) + st[2] + ws(rng)
+    return s + ";"
+
+
+def f10_exp_value(g, v):
+    if v is None:
+        return None
+    if v[0] == "W":
+        return v[1]
+    if v[0] == "L":
+        return [f10_exp_value(g, x) for x in v[1]]
+    if v[0] == "M":
+        return _f10_dict([(k, f10_exp_value(g, x)) for k, x in v[1]])
+    return {"te": "BLOCK", "ch": ["(", {"seq": [{"el": f10_elem_name(g, x[0]), "v": f10_exp_stmt(g, x)} for x in v[1]]}, ")"]}
+
+
+def f10_exp_stmt(g, st):
+    if st[0] == "decl":
+        name = {"te": "NAME", "ch": [g["leaf"][0], st[2]]} if len(g["leaf"]) == 2 else g["leaf"][0]
+        body = {"te": "BODY", "ch": [name, st[3]]} if g["body"] == "body" else name
+        return {"te": "DECL", "ch": [e for _, e in st[1]] + [body, ";"]}
+    h = f10_exp_value(g, st[1])
+    if st[0] == "assign":
+        return {"te": "ASSIGN", "ch": [h, "=", f10_exp_value(g, st[2]), ";"]}
+    if st[0] == "tagged":
+        return {"te": "TAGGED", "ch": [h, ":", st[2], ";"]}
+    return {"te": "EXPR", "ch": [h, ";"]}
+
+
+def _f10_nonempty(v):
+    """does the value hold a non-empty list / map (a roll-back point of the parse loop)"""
+    if v is None or v[0] == "W":
+        return False
+    if v[0] in ("L", "M"):
+        return bool(v[1])
+    return bool(v[1])
+
+
+def f10_stmt_tags(g, st):
+    order = [k for k, _ in g["alts"]]
+    out = ["f10-stmt-" + st[0]]
+    if st[0] == "decl":
+        absent = [e is None or e == [] or e == {"map": []} or e == {"seq": []} for _, e in st[1]]
+        out.append("f10-leading-container-" + ("absent" if all(absent) else "present" if not any(absent) else "mixed"))
+    else:
+        earlier = [k for k in order[:order.index(st[0])] if k != "decl"]
+        if earlier:
+            merged = not g["wrapped"][st[0]] and all(not g["wrapped"][k] for k in earlier)
+            out.append("f10-head-read-again" + ("" if _f10_nonempty(st[1]) else "-empty-or-word")
+                       if not merged else "f10-head-shared-by-factorisation")
+        if st[1] is None:
+            out.append("f10-head-absent")
+    return out
+
+
+def f10_cases(rng, tier):
+    quick = tier == "quick"
+    for _ in range(60 if quick else 700):
+        g = f10_grammar(rng)
+        items = []
+        for _ in range(8):
+            n = 1 if g["emode"] == "single" else rng.choice([0, 1, 2, 3, 4])
+            stmts = [f10_gen_stmt(rng, g, 0) for _ in range(n)]
+            text = ws(rng) + "".join(f10_render_stmt(rng, g, st) + ws(rng) for st in stmts)
+            exps = [f10_exp_stmt(g, st) for st in stmts]
+            if g["emode"] == "single":
+                exp = exps[0]
+            elif g["emode"] == "nobr-list":
+                exp = exps
+            else:
+                exp = {"seq": [{"el": f10_elem_name(g, st[0]), "v": e} for st, e in zip(stmts, exps)]}
+            tg = ["f10", "f10-stmts-in-" + g["emode"]]
+            for st in stmts:
+                tg += f10_stmt_tags(g, st)
+            if g["decl"]:
+                tg.append("f10-pre:" + "+".join(g["pre"]) + ",chain=%d,wrap=%d" % (g["chain"], g["wrap"]))
+            items.append({"text": text, "exp": ["ok", exp], "tags": sorted(set(tg)), "size": [max(2, n), 2]})
+        c = make_case(g["spec"], items, {"kind": "f10", "head": g["head"], "alts": [k for k, _ in g["alts"]],
+                                         "wrapped": g["wrapped"]})
+        if c is not None:
+            yield c
+
+
+# ---- family 11: lengths and depths -- containers of ~1000 and 5000 entries, nesting 20-60 levels deep
+# (the raw tree of a list / map is a tail chain as deep as the container is long: 2cdb1cb made the walk over it a loop)
+F11_NS = [990, 993, 994, 995, 1000, 1024, 1100]
+F11_VARIANTS = ["json", "nodelim", "nullable-items", "nobr-list-top", "nobr-map-top", "afd-off"]
+# deeper nesting is outside what is generated: the clean-up (StdCleanuper._cleanup -> transform_t_elem -> _cleanup ...) and
+# the reference reader of the oracle recurse once per level, CPython's recursion limit ends both near 200 levels
+F11_DEPTHS = [20, 40, 60]
+
+
+def f11_spec(variant, smart):
+    item = "LITEM" if variant == "nullable-items" else "VALUE"
+    afd = False if variant == "afd-off" else None
+    prods = [["E", "plain", [["TOP"]] if variant.endswith("-top") else [["VALUE"]]]]
+    if variant == "nobr-list-top":
+        prods.append(["TOP", "list", [None, "VALUE", ",", None, None, None]])
+    if variant == "nobr-map-top":
+        prods.append(["TOP", "map", [None, "WORD", ":", "VALUE", ",", None, None, False]])
+    prods += [["VALUE", "plain", [["WORD"], ["LIST"], ["MAP"], ["BLOCK"]]],
+              ["LIST", "list", ["[", item, None if variant == "nodelim" else ",", "]", afd, None]],
+              ["MAP", "map", ["{", "WORD", ":", "VALUE", ",", "}", None, afd]],
+              ["BLOCK", "plain", [["(", "SEQ", ")"]]], ["SEQ", "seq", ["WORD", "LIST"]]]
+    if variant == "nullable-items":
+        prods.append(["LITEM", "plain", [["VALUE"], None]])
+    return {"prods": prods, "keep": None, "smart": smart, "start": "E"}
+
+
+def _f11_gap(rng):
+    return ws(rng) if rng.random() < 0.05 else rng.choice(["", "", " "])
+
+
+def f11_small(rng, variant, p=0.2):
+    """a short value: (text, expectation); p: share of containers (every non-empty container inside a long one makes
+    the real parser copy its whole stack -- `longest_stack` --, so the long containers hold about twenty of them)"""
+    r = rng.random()
+    if r >= p:
+        w = rng.choice(WORDS)
+        return w, w
+    if r < p / 2:
+        ws_ = [rng.choice(WORDS) for _ in range(rng.choice([0, 1, 2]))]
+        return "[" + (" " if variant == "nodelim" else ",").join(ws_) + "]", list(ws_)
+    k, w = rng.choice(["k", "kk", "z"]), rng.choice(WORDS)
+    return "{" + k + ":" + w + "}", {"map": [[k, w]]}
+
+
+def f11_long(rng, variant, kind, n, brackets=True):
+    """a container of n entries: (text, expectation); kind: list | map | map-few-keys | seq"""
+    afd_ok = variant != "afd-off"
+    if kind == "list":
+        parts, vals = [], []
+        for _ in range(n):
+            if variant == "nullable-items" and rng.random() < 0.1 and parts:
+                parts.append("")
+                vals.append(None)
+            else:
+                t, e = f11_small(rng, variant, 20.0 / max(n, 20))
+                parts.append(t)
+                vals.append(e)
+        if variant == "nodelim":
+            body = ""
+            for i, p in enumerate(parts):
+                body += (" " if i and not (body.endswith("]") or body.endswith("}")) else _f11_gap(rng) if i else "") + p
+            fin = False
+        else:
+            body = "".join((("," + _f11_gap(rng)) if i else "") + p + _f11_gap(rng) for i, p in enumerate(parts))
+            fin = brackets and afd_ok and n > 0 and rng.random() < 0.3
+            if fin:
+                body += "," + _f11_gap(rng)
+            if variant == "nullable-items" and vals and vals[-1] is None and not fin:
+                vals = vals[:-1]              # "[a, ]": the text of a final delimiter
+        return ("[" + body + "]" if brackets else body), vals
+    if kind in ("map", "map-few-keys"):
+        d, parts = {}, []
+        for i in range(n):
+            k = "k%d" % (i if kind == "map" else rng.randrange(7))
+            t, e = f11_small(rng, variant, 20.0 / max(n, 20))
+            parts.append(k + _f11_gap(rng) + ":" + _f11_gap(rng) + t + _f11_gap(rng))
+            d[k] = e                          # the reference: first position of a key, its last value
+        body = ("," + _f11_gap(rng)).join(parts)
+        if brackets and afd_ok and n > 0 and rng.random() < 0.3:
+            body += "," + _f11_gap(rng)
+        return ("{" + body + "}" if brackets else body), {"map": [[k, e] for k, e in d.items()]}
+    els, parts = [], []
+    for _ in range(n):
+        if rng.random() >= 20.0 / max(n, 20):
+            w = rng.choice(WORDS)
+            els.append({"el": "WORD", "v": w})
+            parts.append(w)
+        else:
+            ws_ = [rng.choice(WORDS) for _ in range(rng.choice([0, 1, 2]))]
+            els.append({"el": "LIST", "v": list(ws_)})
+            parts.append("[" + (" " if variant == "nodelim" else ",").join(ws_) + "]")
+    return "(" + " ".join(parts) + ")", {"te": "BLOCK", "ch": ["(", {"seq": els}, ")"]}
+
+
+def f11_outer(rng, variant, inner, where):
+    """the long container `inner` as the first / last entry of a short outer list or map"""
+    t, e = inner
+    sibs = [f11_small(rng, variant) for _ in range(rng.choice([1, 2, 3]))]
+    if rng.random() < 0.5:
+        seq = ([(t, e)] + sibs) if where == "first" else (sibs + [(t, e)])
+        sepr = " " if variant == "nodelim" else ", "
+        return "[" + sepr.join(x for x, _ in seq) + "]", [x for _, x in seq]
+    keys = ["k", "kk", "z", "k1"]
+    seq = ([(t, e)] + sibs) if where == "first" else (sibs + [(t, e)])
+    return ("{" + ", ".join("%s: %s" % (keys[i], x) for i, (x, _) in enumerate(seq)) + "}",
+            {"map": [[keys[i], x] for i, (_, x) in enumerate(seq)]})
+
+
+def f11_deep(rng, variant, d):
+    """nesting d levels deep through lists, maps and blocks, one to three entries per level"""
+    if d == 0:
+        return f11_small(rng, variant)
+    t, e = f11_deep(rng, variant, d - 1)
+    r = rng.random()
+    sepr = " " if variant == "nodelim" else ","
+    if r < 0.45:
+        a, b = f11_small(rng, variant), f11_small(rng, variant)
+        k = rng.randrange(3)
+        seq = [[(t, e)], [a, (t, e)], [a, (t, e), b]][k]
+        return "[" + _f11_gap(rng) + sepr.join(x for x, _ in seq) + _f11_gap(rng) + "]", [x for _, x in seq]
+    if r < 0.9:
+        a = f11_small(rng, variant)
+        if rng.random() < 0.5:
+            return "{k:" + a[0] + ",z:" + _f11_gap(rng) + t + "}", {"map": [["k", a[1]], ["z", e]]}
+        return "{z" + _f11_gap(rng) + ":" + t + "}", {"map": [["z", e]]}
+    return "(a [" + t + "])", {"te": "BLOCK", "ch": ["(", {"seq": [{"el": "WORD", "v": "a"}, {"el": "LIST", "v": [e]}]}, ")"]}
+
+
+def f11_item(rng, variant, shape, n, d=1, cl_only=False):
+    top = variant.endswith("-top")
+    if shape == "deep":
+        t, e = f11_deep(rng, variant, d)
+        size = [3, d + 1]
+    else:
+        kind = {"list": "list", "map": "map", "map-few-keys": "map-few-keys", "seq": "seq"}[shape.split("@")[0]]
+        inner = f11_long(rng, variant, kind, n)
+        where = shape.split("@")[1] if "@" in shape else None
+        t, e = f11_outer(rng, variant, inner, where) if where else inner
+        size = [n, 2 if where else 1]
+    if variant == "nobr-list-top":
+        if shape == "list":
+            t, e = f11_long(rng, variant, "list", n, brackets=False)
+        else:
+            t, e = t, [e]
+    elif variant == "nobr-map-top":
+        if shape in ("map", "map-few-keys"):
+            t, e = f11_long(rng, variant, shape, n, brackets=False)
+        else:
+            t, e = "k: " + t, {"map": [["k", e]]}
+    tg = ["f11", "f11-" + variant, "f11-" + (shape if shape != "deep" else "deep=%d" % d)]
+    if shape != "deep":
+        tg.append("f11-n=%s" % ("5000" if n >= 5000 else "990..1100" if n >= 990 else "<990"))
+    it = {"text": _f11_gap(rng) + t + _f11_gap(rng), "exp": ["ok", e], "tags": tg, "size": size}
+    if cl_only:
+        it["cl_only"] = True
+        it["tags"].append("f11-clean-up-line-only")
+    return it
+
+
+def f11_cases(rng, tier):
+    quick = tier == "quick"
+    shapes = ["list", "map", "map-few-keys", "seq", "list@last", "map@last", "seq@last", "list@first", "map@first"]
+
+    def case(variant, items, what):
+        return make_case(f11_spec(variant, rng.random() < 0.5), items, {"kind": "f11", "variant": variant, "what": what})
+
+    plan = []
+    if quick:
+        plan.append(("json", [("list", 0), ("map", 0), ("seq", 0), (rng.choice(["list@last", "map@last"]), 0)]))
+        v = rng.choice(F11_VARIANTS[1:])
+        plan.append((v, [(rng.choice(["list", "list@last"]), 0), (rng.choice(["map", "map-few-keys", "map@last"]), 0)]))
+        plan.append(("json", [("list", 5000), ("map-few-keys", -5000)]))          # negative: clean-up line only
+    else:
+        for v in F11_VARIANTS:
+            for _ in range(3):
+                plan.append((v, [(sh, 0) for sh in rng.sample(shapes, 5)]))
+            plan.append((v, [("list", 5000), ("list@last", 5000), ("seq", 5000), ("map-few-keys", 5000), ("map", -5000)]))
+        plan.append(("json", [("map", 5000)]))
+    for variant, todo in plan:
+        items = []
+        for sh, n in todo:
+            items.append(f11_item(rng, variant, sh, abs(n) if n else rng.choice(F11_NS), cl_only=n < 0))
+        c = case(variant, items, "long")
+        if c is not None:
+            yield c
+    for variant in (["json", rng.choice(F11_VARIANTS[1:])] if quick else F11_VARIANTS * 3):
+        items = [f11_item(rng, variant, "deep", 0, d) for d in F11_DEPTHS for _ in range(1 if quick else 3)]
+        c = case(variant, items, "deep")
+        if c is not None:
+            yield c
+
+
 # ------------------------------------------------------------------ building cases
 def build_lines(case):
     lines = [case["g"], case["G"]]
     for it in case["items"]:
-        if it.get("tp") is None:
+        if it.get("tp") is None and not it.get("cl"):
             continue           # a call that fails in the tokenizer: made by the adapter / oracle, no model line
-        if it.get("mode", "str") == "str" and "/*" not in it["text"]:
-            lines.append(ln_line(it["text"]))
-        lines.append(it["tp"])
-        lines.append("tc")
+        if it.get("tp") is not None:
+            if it.get("mode", "str") == "str" and "/*" not in it["text"]:
+                lines.append(ln_line(it["text"]))
+            lines.append(it["tp"])
+            lines.append("tc")
         if it.get("cl"):
             lines.append(it["cl"])
             lines.append("cf")
@@ -2004,7 +2467,7 @@ def real_lines(parser, text):
 
 def tp_line(it):
     lx = lexemes(it)
-    return ("tp " + " ".join(enc_str(g) + " " + enc_str(v) for g, v in lx)).rstrip()
+    return ("tp " + " ".join(_enc(g) + " " + (_enc(v) if len(v) < 24 else enc_str(v)) for g, v in lx)).rstrip()
 
 
 def reorder(spec, meta):
@@ -2063,7 +2526,8 @@ def make_case(spec, items, meta):
             it["tags"] = it.get("tags", []) + ["odd-blank-character"]
         it["tags"] = it.get("tags", []) + ["input:" + it["mode"]]
         try:
-            it["tp"] = tp_line(it)
+            # cl_only: a very long text whose model parse is left to the thorough tier (the model cleans the real raw tree)
+            it["tp"] = None if it.get("cl_only") else tp_line(it)
         except ValueError:
             it["tp"] = None        # the tokenizer itself rejects the text (LexicalError): nothing to ask the model
         try:
@@ -2171,11 +2635,14 @@ def gen_cases(rng, tier):
     yield from f7_cases(rng, tier)
     yield from f8_cases(rng, tier)
     yield from f9_cases(rng, tier)
+    yield from f10_cases(rng, tier)
+    yield from f11_cases(rng, tier)
 
 
 def search_cases(rng, tier):
     """directed search: exhaustive small lists (every arrangement of word / empty item / nested list of length <= 4,
-    with and without a final delimiter) for every option combination, then deeper json values"""
+    with and without a final delimiter) for every option combination, then deeper json values, then statement languages
+    around the containers"""
     import itertools
     for cfg in list_configs():
         br, dl, nullable, afd, opt = cfg
@@ -2200,6 +2667,7 @@ def search_cases(rng, tier):
         c = make_case(f2_spec(cfg, keep), f2_items(rng, cfg, 20, maxd=5), {"kind": "search-f2"})
         if c is not None:
             yield c
+    yield from f10_cases(rng, "quick")
 
 
 def shrink(case):
@@ -2255,7 +2723,10 @@ def tags(case, replies):
             yield "text:" + t
         if not it.get("cl"):
             yield "text:no-raw-tree(parse error)"
-        yield "text:depth=%d" % min(it.get("size", [0, 0])[1], 6)
+        n, d = it.get("size", [0, 0])
+        yield "text:depth=%s" % (d if d <= 6 else "7..20" if d <= 20 else "21..40" if d <= 40 else "41..61")
+        if n >= 990:
+            yield "text:entries=%s" % ("990..1100" if n <= 1100 else ">=5000" if n >= 5000 else "1101..4999")
     for r in replies:
         yield "reply:" + " ".join(r.split()[:2] if r.startswith("err") else r.split()[:1])
 
@@ -2268,7 +2739,19 @@ def corpus():
     items = [{"text": "a [b, c] ;", "tags": ["container-under-seq", "corpus"], "size": [2, 2],
               "exp": ["ok", {"te": "E", "ch": [{"seq": [{"el": "WORD", "v": "a"}, {"el": "LIST", "v": ["b", "c"]}]}, ";"]}]}]
     c = make_case(spec, items, {"kind": "corpus", "what": "list below a sequence"})
-    return [c] if c is not None else []
+    out = [c] if c is not None else []
+    # witness of the defect fixed by 2cdb1cb (the tail of a list / map was walked recursively: parse() raised
+    # RecursionError for lists of >= 994 items and maps of ~1100 pairs)
+    n = 1200
+    words = [WORDS[i % len(WORDS)] for i in range(n)]
+    items = [{"text": "[" + ", ".join(words) + "]", "exp": ["ok", words], "size": [n, 1], "tags": ["corpus", "long-list"], "mode": "str"},
+             {"text": "{" + ", ".join("k%d: %s" % (i % 700, w) for i, w in enumerate(words)) + ",}", "size": [n, 1], "mode": "str",
+              "exp": ["ok", {"map": [["k%d" % i, words[i + 700] if i + 700 < n else words[i]] for i in range(700)]}],
+              "tags": ["corpus", "long-map"]},
+             {"text": "[a, [b], {k: [" + ", ".join(words) + "]}]", "exp": ["ok", ["a", ["b"], {"map": [["k", words]]}]],
+              "size": [n, 3], "tags": ["corpus", "long-list-last-of-outer"], "mode": "str"}]
+    c = make_case(f11_spec("json", True), items, {"kind": "corpus", "what": "list / map of 1200 entries"})
+    return out + ([c] if c is not None else [])
 
 LEVEL_TEXT = (
     "Kernel-checked for all raw trees / all option combinations on the model of ListProds, MapProds, ProdSequence and "
@@ -2293,8 +2776,21 @@ LEVEL_TEXT = (
     "source (lines_cut_at_newline_only). END TO END (end_to_end_json_partial): with constructor (LL model's "
     "factorize / nullables / FIRST / FOLLOW / table + template expansion + StdCleanuper.make), parse loop (LL.run, roll-backs "
     "included) and clean-up all inside the model, for the json grammar E -> VALUE -> WORD | LIST | MAP with default options and "
-    "BOTH smart_factorization values: for every written value (any depth, final delimiters) and any blank lexemes, the parser "
-    "accepts, the raw tree is the derivation tree and parse(text) has exactly the value pyval(data). For other grammars / "
+    "BOTH smart_factorization values: for every written value (any depth and length IN THE MODEL, final delimiters) and any "
+    "blank lexemes, the parser accepts, the raw tree is the derivation tree and parse(text) has exactly the value "
+    "pyval(data). LENGTHS: the cleaned list has one entry per item of the derivation, the cleaned map comes from one cleaned "
+    "pair per pair, for every length (one_entry_per_item: no fuel, structural recursion over the tail chain), and a conforming "
+    "derivation of every length n exists whose clean-up is the n-entry list (any_length). GRAMMARS AROUND THE CONTAINERS "
+    "(absent_container_first, written_production_first; hypothesis: no '__' in the names handed to templates): for every "
+    "parser the constructor model returns, the symbol of an optional or bracket-less list / map and of every sequence is "
+    "nullable, and the FIRST sets the parse table is built from contain, for every production A -> pre s post the user wrote "
+    "with pre nullable (e.g. absent optional containers), s resp. FIRST(s) in FIRST(A), whatever chain of non-terminals the "
+    "first token of s comes through -- so the parents of A get the table cells for a text in which the leading containers "
+    "are absent (that the real constructor computes these sets is C02's tie and the tc lines of family f10 here). "
+    "The tie of 'any depth and "
+    "length' to the real code covers "
+    "nesting up to 61 levels (CPython's recursion limit ends the real, recursive clean-up near 200 levels) and containers of "
+    "up to 5000 entries. For other grammars / "
     "options acceptance of a text and parse(render(d)).value == d rest on the differential run of that same model pipeline "
     "(tokens -> constructT -> LL.run -> toVal -> cleanup) against the real parser and on the oracle.")
 LEVEL_NOTE = (
@@ -2322,7 +2818,21 @@ LEVEL_NOTE = (
     "text or followed; maps whose key and value are the same non-terminal ending in an absent optional list; sequences "
     "listing choice symbols, wrappers of choice symbols, tokens and blocks as elements, nested through BLOCK / lists / maps; "
     "item / value / element symbols mixing a non-terminal-first alternative with alternatives sharing a first token "
-    "(PAIR | WORD '@' | WORD, NUMBER and LIST anywhere) in lists, maps and sequences.")
+    "(PAIR | WORD '@' | WORD, NUMBER and LIST anywhere) in lists, maps and sequences; STATEMENT LANGUAGES around the "
+    "containers (f10): a production that starts with one or two nullable containers (optional list / map, bracket-less list / "
+    "map, sequence; absent, empty or present in the text) followed by a non-terminal whose first token comes through a chain of "
+    "0-3 further non-terminals, the production being the first symbol of other productions directly or through 1-2 "
+    "one-symbol wrappers, keys of the dict in every order; two or three statement alternatives that begin with the SAME "
+    "container symbol (VALUE / LIST / MAP / optional list / optional map, absent heads included) and differ in the token "
+    "behind it, wrapped in their own non-terminals (not mergeable by factorisation: the container is parsed, the alternative "
+    "fails behind it and the next one parses the same container again at the same position) or inline (merged), in every "
+    "order; statements alone, in a sequence (also as start symbol), in a bracket-less list, and in blocks nested inside "
+    "container items; LENGTHS AND DEPTHS (f11): lists, maps (distinct keys / seven repeated keys) and sequences of 990-1100 and "
+    "5000 entries, flat and as the first / last entry of a short outer list or map, with and without delimiter, nullable "
+    "items, bracket-less at top level, final delimiter on / off; nesting 20, 40, 60 levels through lists, maps and blocks; in "
+    "the quick tier the 5000-pair map takes part through the clean-up line only (cl: model clean-up of the real raw tree), "
+    "its model parse runs in the thorough tier. Corpus: the 04414b3 witness and lists / maps of 1200 entries (2cdb1cb: the "
+    "recursive tail walk raised RecursionError from 994 items on).")
 TECHNIQUE = ("Lean 4 theorems over an executable structural-recursive model of the templates and the cleanuper (derivation "
              "shapes as inductive predicates, case analysis over all option fields) + translator for generated names + "
              "composition with the LL parser model (constructor + parse loop; a local 'predicted by ordered choice' lemma for "
